@@ -93,6 +93,14 @@ func (c *MemoryCache[M]) VerifShiftClock(d time.Duration) {
 		shiftMeta(e.meta, d)
 	}
 }
+// VerifMemoryCap returns the memory budget in bytes as the cache applies it now (it follows the
+// configuration asynchronously).
+func (c *MemoryCache[M]) VerifMemoryCap() int64 {
+	c.mu.RLock()
+	defer c.mu.RUnlock()
+	return c.memoryCap
+}
+
 func (c *MemoryCache[M]) VerifSnapshot() VerifSnap {
 	c.mu.RLock()
 	defer c.mu.RUnlock()
